@@ -71,6 +71,38 @@ Theorem c20_u_rejects_negative : forall fuel v, v < 0 ->
 Proof. exact u_rejects_negative_ex. Qed.
 Print Assumptions c20_u_rejects_negative.
 
+(* iterators over bytes WITHOUT a terminating byte (every byte has the continuation bit, including the empty
+   iterator): next(data) runs off the end, both decoders raise StopIteration *)
+Theorem c20_decode_truncated : forall fuel l, Forall (fun b => 128 <= b < 256) l -> (length l < fuel)%nat ->
+  unsigned_leb128_decode fuel l = Internal StopIteration /\
+  signed_leb128_decode fuel l = Internal StopIteration.
+Proof. exact decode_truncated. Qed.
+Print Assumptions c20_decode_truncated.
+
+(* total characterisation of both decoders on EVERY iterator over bytes: either the data starts with a
+   well-formed encoding l, the decoders return its specification value and leave exactly the rest, or every
+   byte is a continuation byte and both raise StopIteration *)
+Theorem c20_decode_total : forall fuel data, Forall (fun b => 0 <= b < 256) data -> (length data < fuel)%nat ->
+  (exists l rest, data = l ++ rest /\ wf_leb l /\
+     unsigned_leb128_decode fuel data = Ok (uleb_value l, rest) /\
+     signed_leb128_decode fuel data = Ok (sleb_value l, rest)) \/
+  (Forall (fun b => 128 <= b < 256) data /\
+     unsigned_leb128_decode fuel data = Internal StopIteration /\
+     signed_leb128_decode fuel data = Internal StopIteration).
+Proof. exact decode_total. Qed.
+Print Assumptions c20_decode_total.
+
+(* converse of the decode theorems: whenever a decoder returns (v, rest) on a byte iterator, it has consumed
+   exactly one well-formed encoding l (data = l ++ rest) and v is its specification value *)
+Theorem c20_decode_ok_inv : forall fuel data v rest,
+  Forall (fun b => 0 <= b < 256) data -> (length data < fuel)%nat ->
+  (unsigned_leb128_decode fuel data = Ok (v, rest) ->
+     exists l, data = l ++ rest /\ wf_leb l /\ v = uleb_value l) /\
+  (signed_leb128_decode fuel data = Ok (v, rest) ->
+     exists l, data = l ++ rest /\ wf_leb l /\ v = sleb_value l).
+Proof. exact decode_ok_inv. Qed.
+Print Assumptions c20_decode_ok_inv.
+
 (* non-vacuity: the fuel hypothesis is met (12 iterations suffice for |v| <= 2^70), the encoders
    compute the textbook byte strings, the specification predicates are inhabited *)
 Example c20_nonvacuous :
@@ -83,5 +115,7 @@ Example c20_nonvacuous :
   signed_leb128_decode 12 [0x9B; 0xF1; 0x59; 7] = Ok (-624485, [7]) /\
   unsigned_leb128_decode 12 [0xE5; 0x8E; 0x26; 7] = Ok (624485, [7]) /\
   unsigned_leb128_decode 12 [0xE5; 0x8E] = Internal StopIteration /\
+  signed_leb128_decode 12 [0xE5; 0x8E] = Internal StopIteration /\
+  signed_leb128_decode 12 [] = Internal StopIteration /\
   length (match signed_leb128_encode 12 (- 2 ^ 70 - 1) with Ok l => l | _ => [] end) = 11%nat.
 Proof. vm_compute. repeat split; lia. Qed.
